@@ -19,7 +19,12 @@ RULE = ("tie: every filesystem event (sys.addaudithook: open with write flags, r
         "-q/--quiet/-v/--verbose/no flag, cwd = empty directory | the metafile's directory | the payload's parent, version requests), "
         "`create|new|<implicit>` (with -o file, -o dir/, without -o; pre-existing ./.torrent and dir/.torrent; existing output; the output "
         "directory, cwd and payload parent pre-populated with bystanders named like temporaries of the output: <out>.tmp <out>~ <out>.bak "
-        ".<out>.swp <out>.part ... which must stay untouched), the INTERACTIVE mode (torrentfile.interactive.select_action in a fresh "
+        ".<out>.swp <out>.part ... which must stay untouched), `create|new --config` (ini found through --config-path, ./torrentfile.ini "
+        "or ~/.torrentfile/torrentfile.ini) with [config] sections that set every key commands.parse_config_file knows -- the documented "
+        "private comment source announce http-seed web-seed meta-version piece-length out and the undocumented align cwd magnet tracker, "
+        "booleans both true and false, alone and all together -- with -o file / -o dir/ / no -o, the content path absolute or relative, "
+        "with and without a trailing separator: exactly one new file, the named output when one is named (-o or `out`), never inside "
+        "the payload tree, bystanders <cwd>/.torrent <content's parent>/.torrent untouched; the INTERACTIVE mode (torrentfile.interactive.select_action in a fresh "
         "interpreter, answers on stdin, cwd = a scratch working directory): interactive create for every version with the output-path "
         "answer empty / absolute / relative and the content path absolute or relative, with and without a trailing separator -- exactly "
         "one new file, at <cwd>/<name>.torrent or the named place, never inside the payload tree; interactive recheck (intact and "
@@ -304,6 +309,123 @@ def run(ctx, model_ok):
                            [(s, v, var) for s in ("create", "new", "") for v in ("1", "2", "3")
                             for var in ("no-out", "out-dir", "out-file", "out-existing")]):
             check_create(sp, v, var)
+
+        # ---------------------------------------------------------------- create through a configuration file
+        def check_config_create(version, cfg_name, cfg, spelling, out_kind, locate, cmd="create"):
+            """`create --config [--config-path F] [-o ..] <content>`: the [config] section sets keys parse_config_file knows
+            (documented: private comment source announce http-seed web-seed meta-version piece-length out; undocumented: align cwd
+            magnet tracker), booleans true and false.  Exactly one new file, never inside the payload tree; a NAMED output (-o or
+            the key `out`) must be that file; everything else -- payload, the ini file, cwd, HOME, bystanders -- untouched"""
+            sb, payload, mf = fresh("cfgcreate", "1", False)
+            wd = os.path.join(sb, "wd")
+            outdir = os.path.join(sb, "out")
+            cfgdir = os.path.join(sb, "cfg")
+            os.makedirs(outdir)
+            os.makedirs(cfgdir)
+            rel = os.path.relpath(payload, wd)
+            content = {"absolute": payload, "absolute/": payload + os.sep, "relative": rel, "relative/": rel + os.sep,
+                       "dot-relative/": "." + os.sep + os.path.join(rel, "")}[spelling]
+            cfg = dict(cfg)
+            cfg.setdefault("meta-version", version)
+            if cfg.get("out") == "<file>":
+                cfg["out"] = os.path.join(outdir, "from-config.torrent")
+            elif cfg.get("out") == "<dir>/":
+                cfg["out"] = outdir + os.sep
+            argv = [cmd, "--prog", "0", "--config"]
+            if locate == "config-path":
+                ini = os.path.join(cfgdir, "settings.ini")
+                argv += ["--config-path", ini]
+            elif locate == "cwd":
+                ini = os.path.join(wd, "torrentfile.ini")
+            else:
+                ini = os.path.join(sb, "home", ".torrentfile", "torrentfile.ini")
+                os.makedirs(os.path.dirname(ini))
+            with open(ini, "w", encoding="utf-8") as fd:
+                fd.write(ir.ini_text(cfg))
+            named = None
+            if out_kind == "-o file":
+                named = os.path.join(outdir, "x.torrent")
+                argv += ["-o", named]
+            elif out_kind == "-o dir/":
+                named = os.path.join(outdir, "payload.torrent")
+                argv += ["-o", outdir + os.sep]
+            if "out" in cfg:        # parse_config_file stores the key over whatever -o said
+                named = cfg["out"] + "payload.torrent" if cfg["out"].endswith(os.sep) else cfg["out"]
+            expect = named or os.path.join(wd, "payload.torrent")
+            argv += [content]
+            # bystanders a mislaid output or probe would hit: <cwd>/.torrent, <content's parent>/.torrent, temporaries
+            for bp in (os.path.join(wd, ".torrent"), os.path.join(os.path.dirname(payload), ".torrent"),
+                       os.path.join(os.path.dirname(payload), "payload.torrent.tmp"), os.path.join(outdir, ".torrent"),
+                       os.path.join(wd, "payload.torrent~"), os.path.join(cfgdir, ".torrent")):
+                with open(bp, "wb") as fd:
+                    fd.write(b"bystander " + os.path.basename(bp).encode())
+            n = counter[0]
+
+            def execute():
+                before = snapshot(sb)
+                rc, out, ev = run_cli(sb, wd, argv, n)
+                return before, rc, out, ev, snapshot(sb)
+            return execute, lambda res: judge(res, sb, payload, expect, named, cfg, argv, version, cfg_name, spelling, out_kind, locate, cmd)
+
+        def judge(res, sb, payload, expect, named, cfg, argv, version, cfg_name, spelling, out_kind, locate, cmd):
+            before, rc, out, ev, after = res
+            d = diff(before, after)
+            rel_expect = os.path.relpath(expect, sb)
+            pay_rel = os.path.relpath(payload, sb)
+            inp = {"route": "create --config", "command": cmd, "version": version, "config file": locate, "config": cfg_name,
+                   "ini": ir.ini_text(cfg).replace(sb, "<sandbox>"), "content spelling": spelling, "output": out_kind,
+                   "cwd": "<sandbox>/wd", "argv": [a.replace(sb, "<sandbox>") for a in argv]}
+            inside = sorted(k for k in d if k == pay_rel or k.startswith(pay_rel + os.sep))
+            if inside:
+                ctx.fail("config-create-changed-the-payload-tree", inp, "the payload tree is only read; the one new file is outside it",
+                         {"rc": rc, "changed inside the payload": {k: d[k] for k in inside}, "diff": d})
+            elif rc != 0 or list(d.values()) != ["added"] or after[next(iter(d))][0] != "file" or (named and d != {rel_expect: "added"}):
+                ctx.fail("config-create-wrote-other-than-one-file", inp, {rel_expect: "added"}, {"rc": rc, "out": out[-300:], "diff": d})
+            elif d != {rel_expect: "added"}:
+                ctx.notes.append(f"create --config ({cfg_name}, {spelling}, no output named) wrote {sorted(d)} instead of {rel_expect}")
+            tie("create", ev, inp)
+            ctx.case(key=("cfgcreate", version, cfg_name, spelling, out_kind, locate, cmd),
+                     classes=["create --config", "create --config: config " + cfg_name, "create --config: content path " + spelling,
+                              "create --config: output " + out_kind, "create --config: ini found via " + locate] +
+                     [f"config key {k} = {str(v).lower() if isinstance(v, bool) else 'set'}" for k, v in cfg.items()])
+
+        LISTS = {"announce": ["http://t.example/announce", "udp://u.example:6969/a"], "http-seed": ["http://h.example/seed"],
+                 "web-seed": ["http://w.example/data"]}
+        DOC = dict(LISTS, comment="made from a configuration file", source="SRC", **{"piece-length": 15})
+        CONFIGS = [("cwd=false", {"cwd": False}), ("cwd=true", {"cwd": True}), ("magnet=true", {"magnet": True}),
+                   ("magnet=false", {"magnet": False}), ("private,align=true", {"private": True, "align": True}),
+                   ("private,align=false", {"private": False, "align": False}), ("tracker", {"tracker": ["http://tr.example/x"]}),
+                   ("documented", DOC),
+                   ("all-false", dict(DOC, private=False, align=False, cwd=False, magnet=False, tracker=["http://tr.example/x"])),
+                   ("all-true", dict(DOC, private=True, align=True, cwd=True, magnet=True, tracker=["http://tr.example/x"])),
+                   ("out=file", dict(LISTS, out="<file>", cwd=False)), ("out=dir/", {"out": "<dir>/", "cwd": False, "private": True})]
+        OUTS = ["none", "-o file", "-o dir/"]
+        LOCS = ["config-path", "cwd", "home"]
+        SPELL5 = ["absolute", "absolute/", "relative", "relative/", "dot-relative/"]
+        if ctx.tier == "thorough":
+            ccases = [(str(1 + (i + j + k) % 3), nm, cfg, s, o, LOCS[(i + j + k) % 3], ("create", "new")[(i + k) % 2])
+                      for i, (nm, cfg) in enumerate(CONFIGS) for j, s in enumerate(SPELL5) for k, o in enumerate(OUTS)]
+        else:
+            k = ctx.rng.randrange(60)
+            ccases = []
+            for i, (nm, cfg) in enumerate(CONFIGS):
+                # no output named and the content spelled with a trailing separator (alternately absolute and relative); and one
+                # more spelling with the output named by -o
+                ccases.append((str(1 + (k + i) % 3), nm, cfg, ("absolute/", "relative/")[(k + i) % 2], "none", LOCS[(k + i) % 3], "create"))
+                ccases.append((str(1 + (k + i + 1) % 3), nm, cfg, SPELL5[(k + i) % 5], OUTS[1 + (k + i) % 2], LOCS[(k + i + 1) % 3],
+                               ("new", "create")[i % 2]))
+            # the keys that speak about WHERE the file goes, false and true, every spelling, no output named
+            for j, s in enumerate(SPELL5):
+                for nm in ("cwd=false", "all-false") if j % 2 == 0 else ("cwd=false", "cwd=true"):
+                    if not any(c[1] == nm and c[3] == s and c[4] == "none" for c in ccases):
+                        ccases.append((str(1 + (k + j) % 3), nm, dict(CONFIGS)[nm], s, "none", LOCS[(k + j) % 3], "create"))
+        # sandboxes are prepared one after the other (single PRNG); the fresh interpreters run side by side
+        from concurrent.futures import ThreadPoolExecutor
+        prepared = [check_config_create(v, nm, cfg, s, o, loc, cmd) for v, nm, cfg, s, o, loc, cmd in ccases]
+        with ThreadPoolExecutor(max_workers=6) as ex:
+            outcomes = list(ex.map(lambda pr: pr[0](), prepared))
+        for (_, judge_one), res in zip(prepared, outcomes):
+            judge_one(res)
 
         # ---------------------------------------------------------------- the interactive mode (select_action)
         def run_dialog(sb, wd, answers):
